@@ -12,11 +12,11 @@ trap 'rm -rf "$S"' EXIT
 B=$(rustc +nightly --print sysroot)/lib/rustlib/x86_64-unknown-linux-gnu/bin
 mkdir -p $S/root/evidence $S/root/replays $S/prof
 cp $V/known_findings.json $V/properties.jsonl $S/root/
-(cd $V/harness && CARGO_NET_OFFLINE=true RUSTFLAGS="-Cinstrument-coverage" CARGO_TARGET_DIR=$S/target cargo +nightly build --release --offline -q 2>/dev/null)
+(cd $V/harness && LLVM_PROFILE_FILE=$S/prof/build-%p.profraw CARGO_NET_OFFLINE=true RUSTFLAGS="-Cinstrument-coverage" CARGO_TARGET_DIR=$S/target cargo +nightly build --release --offline -q 2>/dev/null)
 for i in 01 02 03 04 05 06 07 08 09 10 11 12 13 14 15 16 17 18 19 20; do
   VERIF_ROOT=$S/root VERIF_SKIP_LAYERS=plain,asan,valgrind,miri,fuzz LLVM_PROFILE_FILE=$S/prof/%m-%p.profraw $S/target/release/qxcheck run C$i $TIER 2>&1 | tail -1
 done
-$B/llvm-profdata merge -sparse $S/prof/*.profraw -o $S/cov.profdata
+rm -f $S/prof/build-*.profraw; $B/llvm-profdata merge -sparse $S/prof/*.profraw -o $S/cov.profdata
 {
   echo "# coverage of /repo/src by the primary layer of all twenty $TIER checks ($(git -C /repo rev-parse --short HEAD), $(date -u +%F))"
   $B/llvm-cov report $S/target/release/qxcheck -instr-profile=$S/cov.profdata --ignore-filename-regex='(\.cargo|rustc|/harness/|rustlib)' 2>/dev/null \
